@@ -115,7 +115,10 @@ def evaluate(case, infos, calls, findings, cr, processed_name, processed_text=""
                     continue
                 V.append(("missing_wrapper:%s:%s" % (lang, form_of(info, e)),
                           "no wrapper in the processed header invokes (%s)->%s of %s" % (e["field"], e["m"]["name"], info["decl"])))
-        if lang == "c" and not any(c["inst"] is info and c["entry"] is None for c in calls):
+        # (a trait whose own consuming entry is called `drop` occupies the helper's name: the property asks for a wrapper per entry,
+        #  which exists; whether a separate release helper should exist next to it is not judged)
+        own_drop = any(e["m"]["name"] == "drop" for e in info["entries"])
+        if lang == "c" and not own_drop and not any(c["inst"] is info and c["entry"] is None for c in calls):
             V.append(("missing_wrapper:c:%s:drop" % form_of(info), "no *_drop helper accepts %s by value" % info["decl"]))
     if not cr["compiled"]:
         # only the first error is the finding, the rest is cascade (all lines go into the description)
